@@ -672,6 +672,115 @@ def c14_open_files(model, meta):
     return {"env": {}, "result": got, "exc": exc, "verdict": bad, "expected": sorted(want), "fds": entries}
 
 
+@runner("c14:scan")
+def c14_scan(model, meta):
+    """the real (undecorated) Process.open_files body with readlink / isfile_strict / open_binary / os.listdir and the
+    liveness check replaced by recorders that deliver the outcomes of the model; oracle = the property's statement"""
+    import errno
+    import io
+    from unittest import mock
+    from psutil import _pslinux
+    rl, fi = list(model["rl"]), list(model.get("fi", []))
+    alive = model.get("alive", "ok")
+    n = len(rl)
+    fds = ["3", "17", "255", "1000"][:n]
+    paths = [("/data/f%d" % k if rl[k] in ("reg", "notreg") else "pipe:[%d]" % k) for k in range(n)]
+    pos = [int(x) for x in model.get("pos", [0] * n)]
+    flags = [int(x) for x in model.get("flags", [0] * n)]
+    other_errno = int(model.get("other_errno", errno.EACCES))
+    calls = {"alive": 0}
+
+    def fake_readlink(path, *a):
+        k = fds.index(path.rsplit("/", 1)[1])
+        o = rl[k]
+        if o in ("reg", "notreg", "rel", "relreg"):
+            return paths[k]
+        if o == "ENOENT":
+            raise FileNotFoundError(errno.ENOENT, "gone", path)
+        if o == "ESRCH":
+            raise ProcessLookupError(errno.ESRCH, "gone", path)
+        if o == "OTHER":
+            raise OSError(other_errno, "other", path)
+        raise OSError(getattr(errno, o), o, path)
+
+    def fake_isfile(path):
+        return rl[paths.index(path)] in ("reg", "relreg")
+
+    def fake_open(path, *a, **kw):
+        k = fds.index(path.rsplit("/", 1)[1])
+        o = fi[k] if k < len(fi) else "ok"
+        if o == "ENOENT":
+            raise FileNotFoundError(errno.ENOENT, "gone", path)
+        if o == "ESRCH":
+            raise ProcessLookupError(errno.ESRCH, "gone", path)
+        return io.BytesIO(b"pos:\t%d\nflags:\t%o\nmnt_id:\t1\n" % (pos[k], flags[k]))
+
+    def fake_alive(self):
+        calls["alive"] += 1
+        if alive != "ok":
+            import psutil
+            raise getattr(psutil, alive)(self.pid)
+
+    want, hit = [], False
+    for k in range(n):
+        if rl[k] in ("ENOENT", "ESRCH"):
+            hit = True
+        if rl[k] == "OTHER":
+            want = "OSError"
+            break
+        if rl[k] == "reg":
+            o = fi[k] if k < len(fi) else "ok"
+            if o == "ok":
+                acc, app = flags[k] & 3, bool(flags[k] & os.O_APPEND)
+                mode = {0: "r", 1: "a" if app else "w"}.get(acc, "a+" if app else "r+")
+                want.append((paths[k], int(fds[k]), pos[k], mode, flags[k]))
+            else:
+                hit = True
+    problems, exc, got = [], None, None
+    proc = _pslinux.Process(4500)
+    fn = getattr(_pslinux.Process.open_files, "__wrapped__", _pslinux.Process.open_files)
+    with mock.patch.object(_pslinux, "readlink", fake_readlink), mock.patch.object(_pslinux, "isfile_strict", fake_isfile), \
+            mock.patch.object(_pslinux, "open_binary", fake_open), mock.patch("os.listdir", lambda p: list(fds)), \
+            mock.patch.object(_pslinux.Process, "_raise_if_not_alive", fake_alive):
+        try:
+            got = [tuple(x) for x in fn(proc)]
+        except Exception as e:  # noqa: BLE001
+            exc = e
+    if want == "OSError":
+        if not (isinstance(exc, OSError) and getattr(exc, "errno", None) == other_errno):
+            problems.append(f"an unexpected errno {other_errno} of readlink() must propagate; got {exc!r} / {got!r}")
+    elif exc is not None:
+        if not (hit and alive != "ok" and type(exc).__name__ == alive):
+            problems.append(f"raised {type(exc).__name__}: {exc} (expected rows {want})")
+    else:
+        if got != want:
+            problems.append(f"rows {got}, the property asks {want}")
+        if calls["alive"] != (1 if hit else 0):
+            problems.append(f"liveness check ran {calls['alive']} times; a descriptor vanished: {hit}")
+        if hit and alive != "ok":
+            problems.append(f"the liveness check raised {alive} but open_files returned {got}")
+    return {"env": {}, "result": problems[:3], "exc": None, "verdict": bool(problems), "raised": repr(exc)}
+
+
+@search("c14:scan")
+def c14_scan_search(meta, seed, budget):
+    import itertools
+    import random
+    rng = random.Random(seed)
+    RL = ["reg", "notreg", "rel", "relreg", "ENOENT", "ESRCH", "EINVAL", "ENAMETOOLONG", "OTHER"]
+    FI = ["ok", "ENOENT", "ESRCH"]
+    fl = [0, 1, 2, 3, 0o2001, 0o2002, 0o102003, 0o100000]
+    for r in RL:
+        for f in FI:
+            for a in ("ok", "NoSuchProcess", "ZombieProcess"):
+                yield {"rl": [r], "fi": [f], "alive": a, "pos": [rng.randrange(0, 5000)], "flags": [rng.choice(fl)]}
+    combos = list(itertools.product(RL, RL, FI, FI, ("ok", "NoSuchProcess")))
+    rng.shuffle(combos)
+    for r0, r1, f0, f1, a in combos:
+        yield {"rl": [r0, r1], "fi": [f0, f1], "alive": a, "pos": [rng.randrange(0, 5000), 7],
+               "flags": [rng.choice(fl), rng.choice(fl)]}
+
+
 @search("c14:open_files")
 def c14_open_files_search(meta, seed, budget):
     import random
